@@ -61,6 +61,11 @@ def int_expr(rng, vars_, dom, depth=0):
         return Bin('*', V(rng.choice(vars_)), K(rng.randrange(2, 4)), dom)
     if r < 0.8:
         return MinMax(rng.choice(['min', 'max']), V(rng.choice(vars_)), int_expr(rng, vars_, dom, depth + 1))
+    if r < 0.87:
+        # a block that shadows a rule variable, using the outer one in its own initialiser
+        v = rng.choice(vars_)
+        return LetIn(v, Bin('+', V(v), K(rng.randrange(1, dom)), dom), Bin('*', V(v), K(rng.randrange(2, 4)), dom) if rng.random() < 0.5 else
+                     Bin('+', V(v), V(rng.choice(vars_)), dom))
     return Bin('+', int_expr(rng, vars_, dom, depth + 1), int_expr(rng, vars_, dom, depth + 1), dom)
 
 
@@ -727,6 +732,12 @@ def enumerated_program(rng, nrules=12, dom=4, probes=True):
             rels.append(Rel(pn, [T.I32, T.I32]))
             r = Rule(r.heads + [Head(pn, list(r.heads[0].args))], r.body)
         rules.append(r)
+    if probes:
+        # the probe relations are written by the recursive stratum but read only afterwards: a later stratum reads each of them
+        # through its indices (a tuple that is in the relation but not in its indices goes missing here)
+        rels.append(Rel('pa', [T.I32, T.I32, T.I32]))
+        for i in range(nrules):
+            rules.append(Rule([Head('pa', [K(i), V('x'), V('y')])], [Clause('p%d' % i, [AVar('x'), AVar('y')])]))
     prog = Program(rels, rules)
     return prog, ['a', 'b', 'c'], picked
 
